@@ -827,9 +827,10 @@ def dump(reg, n):
 
 
 def inh_of(n):
-    """`_is_xml` of the parent, resp. what a parentless element falls back to"""
+    """`_is_xml` of the parent, resp. what a parentless element falls back to: the `is_xml` attribute of a BeautifulSoup
+    object, else False ("take a guess--BS is usually used on HTML markup", element.py; since 59fbf52 really the default)"""
     p = n.parent
-    v = p._is_xml if p is not None else getattr(n, "is_xml", False)
+    v = p._is_xml if p is not None else bool(vars(n).get("is_xml", False))
     return ob(v)
 
 
@@ -1447,6 +1448,8 @@ def variant(r, base_recipe, k):
         "attr-order": None,
         "move": ["move", ni, ti, r.randint(0, 2)],
         "prefix": ["setprefix", ti, "px"],
+        "namespace": None,
+        "settings": None,
         "hidden": ["hidden", ti],
         "wrap": ["wrap", ni, "div"],
         "list-class": None,
@@ -1509,6 +1512,30 @@ def apply_variant(r, root, k, op):
         v = t.attrs[kk]
         dict.__setitem__(t.attrs, kk, " ".join(v) if isinstance(v, list) else e["el"].AttributeValueList([raw(v)]))
         return True
+    if k == "namespace":
+        # == does not look at the XML namespace: an SVG <a> and an HTML <a> with the same name, attributes and children are equal
+        t = r.choice(tags)
+        t.namespace = r.choice([x for x in (None, "http://www.w3.org/2000/svg", "http://ns/1", "") if x != t.namespace])
+        if r.random() < 0.5:
+            t.prefix = r.choice([None, "svg"])
+        return True
+    if k == "settings":
+        # nor at any setting
+        t = r.choice(tags)
+        which = r.randrange(6)
+        if which == 0:
+            t.can_be_empty_element = not t.can_be_empty_element
+        elif which == 1:
+            t.sourceline, t.sourcepos = 999, 998
+        elif which == 2:
+            t.known_xml = not t._is_xml
+        elif which == 3:
+            t.preserve_whitespace_tags = {t.name}
+        elif which == 4:
+            t.interesting_string_types = {e["cls"]["Comment"]}
+        else:
+            t.cdata_list_attributes = {"*": {"id"}}
+        return True
     if k == "tag-class":
         # the same tag as an instance of a Tag subclass: the class is not part of the relation
         ts = [t for t in tags if t is not root and type(t) is e["Tag"]]
@@ -1563,7 +1590,7 @@ def apply_variant(r, root, k, op):
     raise ValueError(k)
 
 
-VARIANTS = ["tag-class", "name-case", "attr-key-case", "attr-value-space", "string-unicode", "attr-scalar", "rename", "attr-value", "attr-del", "list-append", "child-removed", "child-added", "tag-added", "string-class",
+VARIANTS = ["namespace", "settings", "tag-class", "name-case", "attr-key-case", "attr-value-space", "string-unicode", "attr-scalar", "rename", "attr-value", "attr-del", "list-append", "child-removed", "child-added", "tag-added", "string-class",
             "string-text", "attr-order", "move", "prefix", "hidden", "wrap", "list-class", "str-vs-list"]
 
 
@@ -1592,6 +1619,14 @@ def build_pool(recipe, pool_desc, seed_tuple):
     emb = copy.copy(base)
     host.p.append(emb)
     pool.append(("embedded", emb))
+    # the same tag made through soup.new_tag(name, namespace=..., nsprefix=...): equal to the base whatever the namespace
+    for ns, pfx in (("http://www.w3.org/2000/svg", "svg"), (None, None)):
+        nt = host.new_tag(raw(base.name), namespace=ns, nsprefix=pfx)
+        for kk, vv in base.attrs.items():
+            dict.__setitem__(nt.attrs, kk, vv.__class__(vv) if isinstance(vv, list) else vv)
+        for kid in copy.copy(base).contents[:]:
+            nt.append(kid.extract())
+        pool.append((f"new_tag-namespace-{'svg' if ns else 'none'}", nt))
     for i, (k, op) in enumerate(pool_desc["variants"]):
         r = rng_for(*seed_tuple, "variant", i)
         v = copy.copy(base)
@@ -2130,6 +2165,150 @@ def stream_detached(ctx, batch, n_trees):
                                 "copied while attached to nothing")
 
 
+RUN_FORMS = ["list", "tuple", "dict", "object", "nested", "shared-memo", "direct-memo", "dict-keys"]
+
+
+class Holder:
+    """an application object that refers to elements (module-level: copyable and picklable)"""
+
+    def __init__(self, items):
+        self.current = items[0]
+        self.others = list(items[1:])
+
+
+def deepcopy_run(els, form):
+    """ONE deepcopy run (one memo) over several elements -> their copies, in the order of `els`"""
+    if form == "list":
+        return list(copy.deepcopy(list(els)))
+    if form == "tuple":
+        return list(copy.deepcopy(tuple(els)))
+    if form == "dict":
+        d = copy.deepcopy({i: x for i, x in enumerate(els)})
+        return [d[i] for i in range(len(els))]
+    if form == "dict-keys":
+        # elements as dict keys (hashable); distinct keys only
+        d = copy.deepcopy({"k": [{"item": x} for x in els]})
+        return [y["item"] for y in d["k"]]
+    if form == "object":
+        h = copy.deepcopy(Holder(els))
+        return [h.current] + h.others
+    if form == "nested":
+        d = copy.deepcopy({"first": [els[0]], "rest": (list(els[1:]),)})
+        return d["first"] + d["rest"][0]
+    if form == "shared-memo":
+        memo = {}
+        return [copy.deepcopy(x, memo) for x in els]
+    if form == "direct-memo":
+        memo = {}
+        return [x.__deepcopy__(memo) for x in els]
+    raise ValueError(form)
+
+
+def check_deepcopy_run(ctx, batch, recipe, idxs, form, stream="deepcopy-run"):
+    """several elements of one tree (a tag before its ancestor, after it, siblings, the same twice, strings, the root) copied in
+    ONE deepcopy run: every copy is judged as a copy of its original — equal, rendering alike, detached, consistently linked,
+    sharing nothing with the original's tree — and compared with the Lean copyImpl run in the same order"""
+    world = build(recipe)
+    nodes = all_nodes(world)
+    els = [nodes[i % len(nodes)] for i in idxs]
+    case = {"op": "deepcopy-run", "recipe": recipe, "elements": idxs, "form": form}
+
+    def anc(a, b):
+        while b is not None:
+            b = b.parent
+            if b is a:
+                return True
+        return False
+    rel = set()
+    for i, a in enumerate(els):
+        for b in els[i + 1:]:
+            rel.add("same-twice" if a is b else "descendant-first" if anc(b, a) else "ancestor-first" if anc(a, b) else "unrelated")
+    for x in rel:
+        ctx.count(f"deepcopy-run:{x}")
+    ctx.count(f"deepcopy-run:form-{form}")
+    ctx.case((stream, json.dumps([recipe["markup"][:80], idxs, form])))
+    before = full_dump(world)
+    try:
+        copies = deepcopy_run(els, form)
+    except RecursionError:
+        raise
+    except Exception as ex:
+        ctx.violation("a deepcopy run over several elements raised", case=case, expected="copies",
+                      observed=f"{type(ex).__name__}: {ex}", stream=stream)
+        return
+    bad = []
+    if full_dump(world) != before:
+        bad.append(("the deepcopy run changed the original tree", "unchanged", "changed"))
+    done = {}
+    for i, (el, c) in enumerate(zip(els, copies)):
+        if id(el) in done:
+            continue       # the same original twice: the copy module hands out the first copy again
+        done[id(el)] = c
+        for what, exp, obs in oracle_copy(world, el, c):
+            bad.append((f"element {i} of the run ({'tag ' + el.name if is_tag(el) else type(el).__name__}): {what}", exp, obs))
+    # copies of different originals are separate trees: using one does not show in another
+    firsts = list(done.values())
+    if len(firsts) > 1 and is_tag(firsts[0]):
+        others = [full_dump(c) for c in firsts[1:]]
+        firsts[0]["data-edited"] = "1"
+        firsts[0].append("more")
+        if [full_dump(c) for c in firsts[1:]] != others:
+            bad.append(("editing one copy of the run changed another copy of the run", "unchanged", "changed"))
+    for what, exp, obs in bad:
+        ctx.count(f"{stream}:oracle-fails")
+        if not capped(ctx, stream):
+            ctx.violation(f"one deepcopy run over several elements: {what}", case=case, expected=str(exp)[:1500], observed=str(obs)[:1500],
+                          stream=stream)
+    # the model: the same copies, one after the other, identities allocated in that order
+    try:
+        w2 = build(recipe)
+        n2 = all_nodes(w2)
+        els2 = [n2[i % len(n2)] for i in idxs]
+        pth = {id(n): p_ for n, p_ in paths(w2)}
+        reg = Reg()
+        wd = dump(reg, w2)
+        root_inh = inh_of(w2)
+        copies2 = deepcopy_run(els2, form)
+        seen = set()
+        for el, c in zip(els2, copies2):
+            if id(el) in seen or is_soup(el):
+                if is_soup(el):
+                    dump(reg, c)     # numbered, compared by the copies stream
+                continue
+            seen.add(id(el))
+            nxt = reg.next
+            cd = dump(reg, c)
+            ptxt = ".".join(map(str, pth[id(el)])) or "r"
+            batch.add(f"c12 copy {root_inh} {nxt} {ptxt} {wd}", f"{reg.next} {cd}", case,
+                      "Lean copyImpl and one copy of a deepcopy run over several elements disagree", stream)
+    except Unrepresentable:
+        pass
+
+
+def stream_deepcopy_runs(ctx, batch, n_trees):
+    for ti in range(n_trees):
+        r = ctx.rng("deepcopy-run", ti)
+        recipe = gen_recipe(r)
+        world = build(recipe)
+        nodes = all_nodes(world)
+        if len(nodes) < 3 or len(nodes) > 70:
+            continue
+        tags = [i for i, n in enumerate(nodes) if is_tag(n)]
+        for j in range(3):
+            # a node and one of its ancestors, in either order; plus random others
+            a = r.randrange(1, len(nodes))
+            chain = []
+            q = nodes[a].parent
+            while q is not None:
+                chain.append(next(i for i, n in enumerate(nodes) if n is q))
+                q = q.parent
+            b = r.choice(chain)
+            idxs = [a, b] if r.random() < 0.6 else [b, a]
+            for _ in range(r.choice((0, 0, 1, 2))):
+                idxs.insert(r.randrange(len(idxs) + 1), r.choice([r.randrange(len(nodes)), a, r.choice(tags)]))
+            check_deepcopy_run(ctx, batch, recipe, idxs, RUN_FORMS[(ti + j) % len(RUN_FORMS)])
+
+
 def stream_settings(ctx):
     """one bare tag per parameter of the live Tag.__init__, given a distinctive value: every instance attribute of the copy
     equals the original's (the search behind the generated copy_self table)"""
@@ -2158,7 +2337,10 @@ def stream_settings(ctx):
             ctx.case(("settings", p, how))
             ctx.count("settings:cases")
             a, b = vars(t), vars(c)
-            diff = [k for k in sorted(set(a) | set(b)) if k not in links and (k not in a or k not in b or a[k] != b[k])]
+            # known_xml of a copy holds the original's resolved _is_xml (None becomes the HTML default False): compare what it means
+            diff = [k for k in sorted(set(a) | set(b)) if k not in links and k != "known_xml" and (k not in a or k not in b or a[k] != b[k])]
+            if t._is_xml != c._is_xml:
+                diff.append("known_xml")
             if a["attrs"] != b["attrs"] or (a["attrs"] and a["attrs"] is b["attrs"]):
                 diff.append("attrs")
             if diff and not capped(ctx, "settings"):
@@ -2187,9 +2369,9 @@ def pickle_oracle(soup, p, config="default"):
     d = shape_diff(shape(ref), shape(p))
     if d:
         bad.append(("the unpickled document differs from the re-parse in classes / attributes / settings", "same", d))
-    if ref == soup and not (p == soup):
+    if eq_spec(ref, soup) and (not (p == soup) or not (soup == p) or (p != soup)):   # eq_spec: the independent evaluator
         bad.append(("the unpickled document is not equal to the original", "==", "!="))
-    if ref == soup and ref.decode() == soup.decode() and hash(p) != hash(soup):
+    if eq_spec(ref, soup) and ref.decode() == soup.decode() and hash(p) != hash(soup):
         bad.append(("the unpickled document hashes differently from the (normalisation-free) original", hash(soup), hash(p)))
     wm, pm = mutable_objects(soup), mutable_objects(p)
     common = [pm[k] for k in pm if k in wm]
@@ -2325,9 +2507,9 @@ def stream_pickle(ctx, n_docs):
         d = shape_diff(shape(ref), shape(p))
         if d:
             bad.append(("the unpickled document differs from the re-parse in classes / attributes / settings", "same", d))
-        if ref == soup:
+        if eq_spec(ref, soup):     # decided by the independent evaluator, not by the == under test
             ctx.count("pickle:normalisation-free")
-            if not (p == soup):
+            if not (p == soup) or not (soup == p) or (p != soup):
                 bad.append(("the unpickled document is not equal to the original", "==", "!="))
         else:
             ctx.count("pickle:normalised")
@@ -2399,6 +2581,8 @@ def run_case(ctx, batch, c, stream):
         run_pickle_history(ctx, c["recipe"], c["steps"], stream)
     elif op == "detached":
         check_detached(ctx, batch, c["element"], c["how"], stream)
+    elif op == "deepcopy-run":
+        check_deepcopy_run(ctx, batch, c["recipe"], c["elements"], c["form"], stream)
 
 
 def run(ctx: Ctx):
@@ -2417,7 +2601,8 @@ def run(ctx: Ctx):
         "BeautifulSoup's TreeBuilder are shared by design and compared by value; parser_class, the attrs dict class and "
         "attribute_value_list_class are not kept by a copy (recorded quirk, modelled)",
         "the BeautifulSoup object itself carries no attributes, its own name and hidden flag are untouched (documented); "
-        "no tag is named 'is_xml' (PageElement._is_xml of a parentless bare Tag reads getattr(self, 'is_xml') = find('is_xml'))",
+        "a parentless plain Tag or string without known_xml counts as HTML (_is_xml False; repaired in /repo 59fbf52, before that "
+        "getattr(tag, 'is_xml') searched for a child tag of that name)",
         "object identities are compared through pre-order numbering, not id()",
         "hash of a mutable tree changes when it is edited (set/dict membership after edits is not claimed); claimed: a copy hashes "
         "like its original at the moment of copying whatever was observed before, and tags that are == and render identically hash alike",
@@ -2428,11 +2613,12 @@ def run(ctx: Ctx):
     import traceback
     streams = [("corpus", lambda: stream_corpus(ctx, batch)), ("nonstring-attr", lambda: stream_nonstring(ctx)),
                ("setitem", lambda: stream_setitem(ctx, batch)), ("soupinfo", lambda: stream_soupinfo(ctx, batch)),
-               ("settings", lambda: stream_settings(ctx)), ("detached", lambda: stream_detached(ctx, batch, ctx.n(150, 1500))), ("small-exhaustive", lambda: stream_small(ctx, batch, ctx.n(5, 6))),
-               ("copies", lambda: stream_random(ctx, batch, ctx.n(1000, 7000))),
-               ("equality", lambda: stream_pools(ctx, batch, ctx.n(250, 1600))),
-               ("pickle", lambda: stream_pickle(ctx, ctx.n(300, 3000))),
-               ("pickle-history", lambda: stream_pickle_history(ctx, ctx.n(250, 2500)))]
+               ("settings", lambda: stream_settings(ctx)), ("detached", lambda: stream_detached(ctx, batch, ctx.n(120, 1500))),
+               ("deepcopy-run", lambda: stream_deepcopy_runs(ctx, batch, ctx.n(150, 2000))), ("small-exhaustive", lambda: stream_small(ctx, batch, ctx.n(5, 6))),
+               ("copies", lambda: stream_random(ctx, batch, ctx.n(800, 7000))),
+               ("equality", lambda: stream_pools(ctx, batch, ctx.n(180, 1600))),
+               ("pickle", lambda: stream_pickle(ctx, ctx.n(240, 3000))),
+               ("pickle-history", lambda: stream_pickle_history(ctx, ctx.n(200, 2500)))]
     for name, fn in streams:
         try:
             fn()
@@ -2505,7 +2691,9 @@ def replay(path):
     if op == "detached":
         el, keep = build_detached(c["element"])
         print("detached element:", type(el).__name__, ascii(el.decode() if is_tag(el) else raw(el)), "copied with", c["how"])
-    if op in ("copy", "events", "edit", "eq", "detached"):
+    if op == "deepcopy-run":
+        print("one deepcopy run, form:", c["form"], "elements (pre-order indices):", c["elements"])
+    if op in ("copy", "events", "edit", "eq", "detached", "deepcopy-run"):
         if "recipe" in c:
             print("tree:", ascii(build(c["recipe"]).decode()), "config:", c["recipe"].get("config"), "ops:", c["recipe"].get("ops"))
         for k in ("path", "how", "side", "edit", "labels"):
